@@ -597,7 +597,11 @@ def check(ctx):
         else:
             r3.bad(V(r3.id, f.id, "no-closure", "collect_used_types does not close over nested dependencies"))
         clos = [P.fns[k] for k in P.family(f.id) if "::{closure" in k]
-        if any(any(short_path(c.path) == "HashSet::contains" for c in g.calls) for g in clos):
+        # the result is the discovered structs restricted to the used names — `all.iter().filter(|(n, _)| used.contains(n))`, or the other way
+        # round, `used.iter().filter_map(|n| all.get_key_value(n))`: either way an intersection, never the whole discovered map
+        by_lookup = any(short_path(c.path) in ("HashMap::get_key_value", "HashMap::get", "HashMap::remove_entry", "HashMap::remove", "HashMap::contains_key")
+                        and "StructInfo" in " ".join(c.generics) for g in clos + [f] for c in g.calls if c.bb in g.reach_blocks)
+        if any(any(short_path(c.path) == "HashSet::contains" for c in g.calls) for g in clos) or by_lookup:
             r6.ok("collect_used_types keeps only names contained in the used set")
         else:
             r6.bad(V(r6.id, f.id, "no-membership-filter", "collect_used_types does not filter the discovered structs by membership in the used set"))
